@@ -147,6 +147,9 @@ theorem applyNested_q (D : Desc) (base : List (Nat × CmdType)) (f : Fsm) (e : B
     | edit bs =>
       simp only [applyNested]
       split <;> (apply ih; exact QInv.congr (s := s) ⟨by simp, by simp, by simp⟩ q)
+    | report n =>
+      simp only [applyNested]
+      split <;> (apply ih; exact QInv.congr (s := s) ⟨by simp, by simp, by simp⟩ q)
 
 theorem varWriteCb_q (D : Desc) (base : List (Nat × CmdType)) (s : St) (v : VarD) (i : SvcIn) (q : QInv D base s) :
     QInv D base (varWriteCb D s v i).1 := by
